@@ -65,3 +65,33 @@ pub fn rawvec_new_fixed() -> RawVector {
 pub fn rawvec_reserve_fixed(v: &mut RawVector, additional: usize) {
     assert!(v.len() <= FIXED_BITS && additional <= FIXED_BITS - v.len(), "stub: fixed capacity exceeded in RawVector::reserve");
 }
+
+// R4: forced "long superblock" regime. The first call of bits::bit_len after `reset_regime()`
+// (in SelectSupport::new it computes the log^4 threshold) returns 0, so every superblock takes
+// the explicit-offset ("long") path; later calls (IntVector::pack) are exact. Instances without
+// this stub run the real rule, which is the block-sample ("short") path for vectors this small.
+// Answers must not depend on the regime.
+static mut BIT_LEN_CALLS: usize = 0;
+pub fn reset_regime() { unsafe { BIT_LEN_CALLS = 0; } }
+pub fn bit_len_force_long(n: u64) -> usize {
+    let real = 64 - ((n | 1).leading_zeros() as usize);
+    unsafe {
+        BIT_LEN_CALLS += 1;
+        if BIT_LEN_CALLS == 1 { return 0; }
+    }
+    real
+}
+
+// UTF-8 validation (word-at-a-time scan over an aligned pointer) explodes under CBMC. Content is
+// restricted to ASCII (stated in the evidence): the stubs accept exactly ASCII input and cut
+// every other path, which is outside the claim.
+pub fn string_from_utf8_ascii(bytes: Vec<u8>) -> Result<String, std::string::FromUtf8Error> {
+    let mut i = 0;
+    while i < bytes.len() { kani::assume(bytes[i] < 128); i += 1; }
+    Ok(unsafe { String::from_utf8_unchecked(bytes) })
+}
+pub fn str_from_utf8_ascii(bytes: &[u8]) -> Result<&str, std::str::Utf8Error> {
+    let mut i = 0;
+    while i < bytes.len() { kani::assume(bytes[i] < 128); i += 1; }
+    Ok(unsafe { std::str::from_utf8_unchecked(bytes) })
+}
